@@ -505,6 +505,29 @@ def r6_derived_functions(repo: Repo, rep):
         rep.undecided(R, duf.module.relpath, duf.fq, "derived shape-function classes with their own __call__", "none found")
 
 
+def r9_plot_domains_are_evaluated(repo: Repo, rep):
+    R = rep.rule("R-C17-9", "samplers that take a domain together with `data_for_other_variables` store that domain EVALUATED at the data: self.<x> = <domain parameter>(**<data>)", floor=2,
+                 why="the stored interval / plot domain still declaring the variable is not `the original evaluated at D = 2`: sampling it without parameters raises `argument D is necessary`")
+    for mname, m in repo.modules.items():
+        if not mname.endswith(".plot_samplers"):
+            continue
+        for ci in m.classes.values():
+            init = ci.methods.get("__init__")
+            if init is None or "data_for_other_variables" not in init.params:
+                continue
+            doms = [p for p in init.params if p.endswith("_domain")]
+            for n in ast.walk(init.node):
+                if not (isinstance(n, ast.Assign) and any(isinstance(t, ast.Attribute) and dump(t.value) == "self" for t in n.targets)):
+                    continue
+                used = [x.id for x in ast.walk(n.value) if isinstance(x, ast.Name) and x.id in doms]
+                if not used:
+                    continue
+                rep.saw(init)
+                v = n.value
+                ok = isinstance(v, ast.Call) and isinstance(v.func, ast.Name) and v.func.id in doms and any(k.arg is None and "data_for_other_variables" in dump(k.value) for k in v.keywords)
+                rep.check(R, ok, init.site(n), init.fq, f"`{used[0]}` is stored evaluated at the data for the other variables", dump(n)[:100], dump(n)[:100])
+
+
 def r8_unfiltered_data(repo: Repo, rep):
     R = rep.rule("R-C17-8", "whoever evaluates a domain / shape function with a mapping hands over the whole mapping: it is never pre-filtered by necessary_variables / necessary_args "
                  "(optional names - those with a default - are bound by a given value too)", floor=1,
@@ -542,6 +565,7 @@ def run(repo: Repo, rep):
                                  why="an evaluated domain rebuilt without one of its constructor arguments denotes another set")
     r7_product_call(repo, rep)
     r8_unfiltered_data(repo, rep)
+    r9_plot_domains_are_evaluated(repo, rep)
     r6_derived_functions(repo, rep)
     r5_point_data(repo, rep)
     r1_roundtrip(repo, rep)
